@@ -985,6 +985,104 @@ def r03q(rep, F):
     rep.require_count('R03q', 'sub-planner runs on an owned problem definition', n, 2)
 
 
+REFUSALS = ('INVALID_START', 'INVALID_GOAL', 'UNRECOGNIZED_GOAL_TYPE')
+SIZE_CALLS = ('size', 'getMotionCount', 'empty', 'getExperiencesCount', 'isEmpty')
+
+
+def _own_measure(f, n):
+    """n (stripped) measures one of the planner's own data members: member->size(), member.size (Grid tree), member.empty() ..."""
+    n = f.strip(n['id']) if n is not None else None
+    if n is None:
+        return None
+    if n.get('callee') and n['callee'].split('::')[-1] in SIZE_CALLS:
+        fp = f.fp(n['id'])
+        if 'this.' in fp:
+            return ('empty' if n['callee'].split('::')[-1] in ('empty', 'isEmpty') else 'count', nofp(fp))
+    if n['k'] == 'MemberExpr' and n.get('name') == 'size' and 'this.' in f.fp(n['id']):
+        return ('count', nofp(f.fp(n['id'])))
+    return None
+
+
+def _growth_satisfiable(f, nid, pos=True):
+    """does the guard (with polarity pos) hold as soon as the measured member has grown?  returns the offending sub-expression or None.
+    Emptiness tests (== 0, empty(), !size(), < 1, <= 0) can only be falsified by growth.  A disjunction is satisfied by one disjunct; a
+    conjunction needs every conjunct, so only a conjunction of growth-satisfiable tests counts."""
+    n = f.strip(nid)
+    if n is None:
+        return None
+    if n['k'] == 'UnaryOperator' and n.get('op') == '!':
+        return _growth_satisfiable(f, n['ch'][0], not pos)
+    if n['k'] == 'BinaryOperator' and n.get('op') in ('||', '&&'):
+        parts = [_growth_satisfiable(f, c, pos) for c in n['ch']]
+        disj = (n['op'] == '||') == pos
+        if disj:
+            return next((x for x in parts if x), None)
+        return parts[0] if all(parts) else None
+    m = _own_measure(f, n)
+    if m is not None:
+        # bare truth value: empty() is an emptiness test; size() as a boolean is "non-empty"
+        if m[0] == 'empty':
+            return None if pos else nofp(f.fp(n['id']))
+        return nofp(f.fp(n['id'])) if pos else None
+    if n['k'] == 'BinaryOperator' and n.get('op') in ('==', '!=', '<', '<=', '>', '>='):
+        l, r = f.strip(n['ch'][0]), f.strip(n['ch'][1])
+        op = n['op']
+        if r is not None and _own_measure(f, r) and l is not None and l['k'] == 'IntegerLiteral':
+            l, r = r, l
+            op = {'<': '>', '<=': '>=', '>': '<', '>=': '<=', '==': '==', '!=': '!='}[op]
+        m = _own_measure(f, l) if l is not None else None
+        if m is None or m[0] != 'count' or r is None or r['k'] != 'IntegerLiteral':
+            return None
+        c = int(r.get('v') or 0)
+        if not pos:
+            op = {'<': '>=', '<=': '>', '>': '<=', '>=': '<', '==': '!=', '!=': '=='}[op]
+        # set of counts satisfying (count op c); growth-satisfiable iff it contains a value >= 1 other than through emptiness alone
+        sat = {'==': c >= 1, '!=': True, '>': True, '>=': True, '<': c >= 2, '<=': c >= 1}[op]
+        return nofp(f.fp(n['id'])) if sat else None
+    return None
+
+
+def r03r(rep, F, solves):
+    rep.rule('R03r', 'resumed solves are not refused: solve() keeps its tree between calls, so a refusal exit (INVALID_START, INVALID_GOAL, '
+                     'UNRECOGNIZED_GOAL_TYPE) whose guard measures one of the planner\'s own data members (nn_->size(), motions_.empty(), '
+                     'tree_.grid.size(), disc_.getMotionCount() ...) may only test *emptiness* (== 0, empty(), < 1), which growth can only '
+                     'falsify.  A guard that holds once the member has grown (size() > 1, size() != 1, size() >= k) turns the second '
+                     'solve() on the same query into a refusal instead of a continuation.  Polarity through !, ||, && and else-branches '
+                     'is followed; a conjunction counts only if every conjunct is growth-satisfiable')
+    n = 0
+    for f in solves:
+        for r in f.walk():
+            if r['k'] != 'ReturnStmt' or not r['ch']:
+                continue
+            fp = f.fp(r['ch'][0])
+            st = next((s for s in REFUSALS if s in fp), None)
+            if st is None:
+                continue
+            prev = r['id']
+            guards = []
+            for a in f.ancestors(r['id']):
+                if a['k'] == 'IfStmt' and a.get('cond'):
+                    in_then = a.get('then') is not None and (a['then'] == prev or any(x['id'] == prev for x in f.walk(a['then'])))
+                    guards.append((a, in_then))
+                prev = a['id']
+            measured = [(a, pos) for a, pos in guards
+                        if any(_own_measure(f, x) for x in f.walk(a['cond']))]
+            if not measured:
+                continue
+            n += 1
+            bad = None
+            for a, pos in measured:
+                bad = _growth_satisfiable(f, a['cond'], pos)
+                if bad:
+                    break
+            k = len([1 for o in rep.obl if o['rule'] == 'R03r' and o['function'] == f.name and o['role'].startswith('refusal:' + st)])
+            rep.add('R03r', f.name, 'refusal:%s#%d' % (st, k), not bad, f.where(r),
+                    'the guard is an emptiness test of the planner\'s own structure: growth can only falsify it' if not bad else
+                    'the refusal is taken when %s holds, which the tree grown by an earlier solve() satisfies: the resumed solve() returns %s '
+                    'instead of continuing the preserved search' % (bad, st))
+    rep.require_count('R03r', 'refusal exits guarded by a measure of the planner\'s own structures', n, 46)
+
+
 def run(rep):
     units = P.geometric_units() + P.control_units() + P.multilevel_units() + P.base_units()
     F = facts.load_units(units)
@@ -1013,6 +1111,7 @@ def run(rep):
     r03p(rep, F)
     r03n(rep, F, solves)
     r03q(rep, F)
+    r03r(rep, F, solves)
     # the RRTConnect side-flag invariant decides which branch is reported as the approximate solution of an interrupted solve
     from rules import c01
     c01.r01k(rep, F)
